@@ -29,7 +29,7 @@ RULE = ("One case = one circuit state, one environment type and a list of measur
         "Distinct by SHA-1 of the descriptor.")
 ASSUMPTIONS = ["dense reference: <v|O|v>/<v|v> with O from vlib/jw.py and v = to_tensor() (checked against dense gates in C11)",
                "boundary MPS compared only when every reported discarded weight is < 1e-12; CTM after max(Nx,Ny)+1 outward expansions; BP only on chains",
-               "tolerances: expectation values 1e-8 (absolute, operators of norm <= 2), metric hermiticity / positivity 1e-9 relative, evolution: direction 1e-7, reported truncation_error <= 1e-4 (round-off of the metric-based error is ~1e-6)"]
+               "tolerances: expectation values 1e-8 (1e-6 when the product of the gates' condition numbers exceeds 1e4; absolute, operators of norm <= 2), metric hermiticity / positivity 1e-9 relative, evolution: direction 1e-7, reported truncation_error <= 1e-4 (round-off of the metric-based error is ~1e-6)"]
 
 FAMS = [i for i, (nm, kw) in enumerate(G.FAMILIES) if nm != 'Qdit']
 LATS_Q = [[1, 2, 'obc'], [2, 1, 'obc'], [1, 3, 'obc'], [3, 1, 'obc'], [2, 2, 'obc'], [2, 3, 'obc'], [3, 2, 'obc'], [1, 4, 'obc'], [4, 1, 'obc']]
@@ -165,7 +165,15 @@ def execute_measure(desc):
     op = lambda nm: PG.resolve_op(named, nm)
     fermionic = bool(np.any(sp.ferm)) if not isinstance(sp.ferm, bool) else sp.ferm
     nt = False
-    tol = 1e-8
+    # strongly non-unitary circuits (e.g. exp(-1.0 H) with |H| ~ 10, twice) give states with a huge dynamic range: the variationally
+    # compressed boundaries are then accurate to ~1e-7 only
+    cond = 1.0
+    for g in desc['gates']:
+        if len(g['sites']) == 2:
+            sv = np.linalg.svd(PG.dense_gate(g, fam, [1, 2, 'obc'], [(0, 0), (0, 1)]), compute_uv=False)
+            cond *= sv[0] / max(sv[-1], 1e-300)
+    tol = 1e-8 if cond <= 1e4 else 1e-6
+    labels.append('circuit_cond<=1e4' if cond <= 1e4 else 'circuit_cond>1e4:tol_1e-6')
 
     def cmp(val, names, sites, what):
         ref = expect(v, JW.jw_product(sp, [op(nm) for nm in names], [idx[tuple(s)] for s in sites], N))
